@@ -1814,7 +1814,7 @@ fn write<'a>(
 					.label()
 					.with_message(format!(
 						"Reference to unknown source '{}'.",
-						filename.fg(colors.primary)
+						show_filename(filename).fg(colors.primary)
 					))
 					.with_color(PRIMARY),
 			)
@@ -1833,7 +1833,7 @@ fn write<'a>(
 					.label()
 					.with_message(format!(
 						"Reference to unknown source '{}'.",
-						filename.fg(colors.primary)
+						show_filename(filename).fg(colors.primary)
 					))
 					.with_color(PRIMARY),
 			)
@@ -2665,6 +2665,26 @@ fn note_for_possible_conversions(
 			show_type(coerced_type, colors.secondary),
 		)
 	}
+}
+
+/// A filename as it was written, with its control characters escaped,
+/// so that it cannot disturb the report around it.
+fn show_filename(filename: &str) -> String
+{
+	filename
+		.chars()
+		.flat_map(|c| {
+			let escaped: Vec<char> = if c.is_control()
+			{
+				c.escape_default().collect()
+			}
+			else
+			{
+				vec![c]
+			};
+			escaped
+		})
+		.collect()
 }
 
 #[cfg_attr(coverage, no_coverage)]
